@@ -191,7 +191,10 @@ func (e *Explore) Run(ctx context.Context, con int) error {
 }
 
 func (e *Explore) exploreOnce(ctx context.Context, t *exploringTarget) (err error) {
-	defer t.rt.SetScrapeErr(time.Now(), err)
+	start := time.Now()
+	defer func() {
+		t.rt.SetScrapeErr(start, err)
+	}()
 	exploringTotal.WithLabelValues(t.job).Inc()
 	defer func() {
 		exploringTotal.WithLabelValues(t.job).Dec()
